@@ -89,7 +89,10 @@ def neg_bits(b):
 
 
 def run(chk, replay=None):
-    proof = proof_check(PID)
+    gens = gen_sources()
+    proof = proof_check(PID, gen_theorems=("C06Formulas",))
+    if gens.get("formulas_error"):
+        proof["ok"] = False; proof["problems"].append("translator tools/gen_formulas.py cannot read the current source: " + gens["formulas_error"])
     drv = build_driver(); exe = build_harness("default"); cfg = harness_config(exe)
     if replay:
         r = json.load(open(replay)); c = r["case"]
